@@ -23,6 +23,7 @@ REGISTRY = {
     "C12": "purity",
     "C16": "membership",
     "C17": "measures",
+    "C18": "intersect",
 }
 
 
